@@ -171,10 +171,7 @@ func shouldCheckAgainstZero(ctx *MethodContext, s, t *xtype.Type, isUpdate, call
 		if s.Chan || s.Map || s.Func || s.Signature || s.Interface {
 			return true
 		}
-		if call || (ctx.Conf.SkipCopySameType && types.Identical(s.T, t.T)) {
-			return (s.List && !s.ListFixed) || s.Pointer
-		}
-		return false
+		return (s.List && !s.ListFixed) || s.Pointer
 	default:
 		return false
 	}
